@@ -191,6 +191,43 @@ static void call_gscon(char *args)
     fputs("}\n", OUT);
 }
 
+/* the norm estimator driven directly with an explicit operator: the current matrix (dense use of its entries) plays
+ * the role of the operator B whose 1-norm is estimated; every round of the reverse-communication loop is logged */
+#if NCOMP == 1
+extern int LACON2(int *, val_t *, val_t *, int *, real_t *, int *, int []);
+#else
+extern int LACON2(int *, val_t *, val_t *, real_t *, int *, int []);
+#endif
+static void call_lacon(void)
+{
+    ctx_t *c = cx; int n = c->n, kase = 0, isave[3] = {0, 0, 0}; real_t est = 0;
+    val_t *v = calloc(n + 1, sizeof(val_t)), *x = calloc(n + 1, sizeof(val_t)), *y = calloc(n + 1, sizeof(val_t)); int *isgn = calloc(n + 1, sizeof(int));
+    common_head("lacon", c); A_json("A0", c);
+    fputs(",\"rounds\":[", OUT);
+    int rounds = 0;
+    do {
+#if NCOMP == 1
+        LACON2(&n, v, x, isgn, &est, &kase, isave);
+#else
+        LACON2(&n, v, x, &est, &kase, isave);
+#endif
+        fprintf(OUT, "%s{\"kase\":%d,\"jump\":%d,\"j\":%d,\"iter\":%d,\"est\":", rounds ? "," : "", kase, isave[0], isave[1], isave[2]); jnum((double)est);
+        fputs(",\"x\":[", OUT); for (int i = 0; i < n; i++) { if (i) fputc(',', OUT); jval(x[i]); } fputs("]}", OUT);
+        if (kase == 0 || ++rounds > 40) break;
+        /* x := B x (kase 1) or B^H x (kase 2) with the stored matrix B (column storage) */
+        for (int i = 0; i < n; i++) MKVAL(y[i], 0.0, 0.0);
+        for (int j = 0; j < n; j++) for (int_t q = c->ptr[j]; q < c->ptr[j + 1]; q++) {
+            int i = (int)c->idx[q]; double ar = RE(c->a[q]), ai = IM(c->a[q]);
+            if (kase == 1) { double xr = RE(x[j]), xi = IM(x[j]); MKVAL(y[i], RE(y[i]) + ar * xr - ai * xi, IM(y[i]) + ar * xi + ai * xr); }
+            else { double xr = RE(x[i]), xi = IM(x[i]); ai = -ai; MKVAL(y[j], RE(y[j]) + ar * xr - ai * xi, IM(y[j]) + ar * xi + ai * xr); }
+        }
+        memcpy(x, y, n * sizeof(val_t));
+    } while (1);
+    fprintf(OUT, "],\"nrounds\":%d,\"est\":", rounds); jnum((double)est);
+    fputs("}\n", OUT);
+    free(v); free(x); free(y); free(isgn);
+}
+
 /* ------------------------------------------------------------------ kernels (C14) */
 static void call_trsv(char *args)
 {
@@ -380,6 +417,7 @@ static int extra_call(const char *fn, char *args)
     if (!strcmp(fn, "screen")) { char r[32]; int k = 0; if (sscanf(args, "%31s%n", r, &k) < 1) return 0; call_screen(r, args + k); return 1; }
     if (!strcmp(fn, "equ")) { call_equ(); return 1; }
     if (!strcmp(fn, "gscon")) { call_gscon(args); return 1; }
+    if (!strcmp(fn, "lacon")) { call_lacon(); return 1; }
     if (!strcmp(fn, "trsv")) { call_trsv(args); return 1; }
     if (!strcmp(fn, "gemv")) { call_gemv(args); return 1; }
     if (!strcmp(fn, "gemm")) { call_gemm(args); return 1; }
